@@ -4,7 +4,7 @@ import os
 
 import vlib
 
-UNIVERSES = ["Object", "UnionEnum", "ScalarInput", "Schema", "Directives"]
+UNIVERSES = ["Object", "Interface", "UnionEnum", "ScalarInput", "Schema", "Directives"]
 
 
 def run_histories(chk):
